@@ -475,7 +475,8 @@ def concat_gapless_blocks(blocks, cigar_tuples):
     current_block = None
     deletions_before_block = 0
 
-    while cigar_index < len(cigar_tuples) and block_index < len(blocks):
+    # all operations are visited: deletions behind the last matched block belong to the last exon
+    while cigar_index < len(cigar_tuples):
         # init new block
         cigar_event = CigarEvent(cigar_tuples[cigar_index][0])
         if current_block is None:
@@ -484,9 +485,12 @@ def concat_gapless_blocks(blocks, cigar_tuples):
                 current_block = (blocks[block_index][0] - deletions_before_block, blocks[block_index][1])
                 deletions_before_block = 0
                 block_index += 1
-            # keep track of deletions before matched block
+            # keep track of all deletions before matched block
             elif cigar_event == CigarEvent.deletion:
-                deletions_before_block = cigar_tuples[cigar_index][1]
+                deletions_before_block += cigar_tuples[cigar_index][1]
+            # deletions between two introns belong to no block
+            elif cigar_event == CigarEvent.skipped:
+                deletions_before_block = 0
         # found intron, add current block
         elif cigar_event == CigarEvent.skipped:
             resulting_blocks.append(current_block)
